@@ -265,9 +265,9 @@ def parse_cases_result(out):
 
 
 def eval_shard(args):
-    workdir, name, module, terms, timeout = args
-    text = "From SV Require Import %s.\nDefinition cases : list case := [\n%s\n].\nEval vm_compute in (run_cases cases).\n" % (
-        module, ";\n".join(terms))
+    workdir, name, module, terms, timeout, prelude = args
+    text = "From SV Require Import %s.\n%s\nDefinition cases : list case := [\n%s\n].\nEval vm_compute in (run_cases cases).\n" % (
+        module, prelude, ";\n".join(terms))
     rc, out = coq_eval(name, text, timeout=timeout, workdir=workdir)
     if rc != 0:
         return None, out
@@ -277,18 +277,21 @@ def eval_shard(args):
     return r, out
 
 
-def eval_cases(prop, module, cases, shard=250, timeout=1800, tag="s"):
+def eval_cases(prop, module, cases, shard=250, timeout=1800, tag="s", prelude=""):
     """cases: list of (index, class, term).  Returns (mismatch idx, bad [(idx,kf)], error text or None)."""
     wd = os.path.join(WORK, prop)
     os.makedirs(wd, exist_ok=True)
     jobs = []
     for k in range(0, len(cases), shard):
         chunk = cases[k:k + shard]
-        jobs.append((wd, "%s_%s_%d" % (prop, tag, k // shard), module, [c[2] for c in chunk], timeout))
+        jobs.append((wd, "%s_%s_%d" % (prop, tag, k // shard), module, [c[2] for c in chunk], timeout, prelude))
     mm, bad = [], []
     with ThreadPoolExecutor(max_workers=16) as ex:
         results = list(ex.map(eval_shard, jobs))
     for j, (r, out) in enumerate(results):
+        if r is None:      # transient failures (e.g. a dependency being recompiled): retry once, alone
+            r, out = eval_shard(jobs[j])
+            results[j] = (r, out)
         if r is None:
             return None, None, "coqc failed on shard %d:\n%s" % (j, out[-3000:])
         total, m, b = r
@@ -343,6 +346,7 @@ class Spec:
     translators = []          # callables run before the Coq build
     shard = 250
     extra = None              # optional callable(ctx) for additional checks -> list of problems
+    case_prelude = ""         # vernacular inserted before the cases definition (e.g. scope opening)
     level = "proof"
 
 
@@ -395,7 +399,7 @@ def generate_cases(ctx, scale=1):
         rc, out = run_bin(profile, b, ["--seed", ctx.seed, "--count", n] + list(extra))
         if rc != 0:
             raise RuntimeError("harness %s (%s) exited %d:\n%s" % (b, profile, rc, out[-2000:]))
-        res.append((b, profile, parse_case_lines(out)))
+        res.append((b, profile, parse_case_lines(out), list(extra)))
     return res
 
 
@@ -482,11 +486,11 @@ def standard_check(spec, tier, seed, replay=None):
         write_fail(ctx, "harness-run", str(ex))
         return finish(ctx)
     evals, classes, mism_all = 0, {}, []
-    for (b, profile, cases) in gen:
+    for (b, profile, cases, extra) in gen:
         evals += len(cases)
         for c in cases:
             classes.setdefault(c[1], c)
-        mm, bad, err = eval_cases(prop, spec.case_module, cases, shard=spec.shard, tag=b + "_" + profile)
+        mm, bad, err = eval_cases(prop, spec.case_module, cases, shard=spec.shard, tag="_".join([b, profile] + [x.strip("-") for x in extra]), prelude=spec.case_prelude)
         if err:
             ctx.problems.append("case evaluation failed for %s/%s: %s" % (b, profile, err))
             continue
@@ -497,14 +501,14 @@ def standard_check(spec, tier, seed, replay=None):
                     ctx.known_lines.append(line)
                 continue
             if len(ctx.violations) < 5:
-                path = write_replay(prop, "%s-%s-%d" % (b, profile, c[0]), {
-                    "property": prop, "bin": b, "profile": profile, "seed": ctx.seed, "index": c[0],
+                path = write_replay(prop, "%s-%s-%d" % ("_".join([b] + [x.strip("-") for x in extra]), profile, c[0]), {
+                    "property": prop, "bin": b, "profile": profile, "seed": ctx.seed, "index": c[0], "args": extra,
                     "class": c[1], "case": c[2],
                     "what": "the implementation's observed output (second component of the case) is rejected by the property oracle ok_%s evaluated in Coq" % prop,
                     "how_to_replay": "./check %s --replay <this file>" % prop})
                 ctx.violations.append((path, ""))
         for c in mm:
-            mism_all.append((b, profile, c))
+            mism_all.append((b, profile, c, extra))
     nontrivial = [k for k in classes if not any(k.startswith(t) for t in spec.trivial_classes)]
     ctx.samples = [classes[k][2][:400] for k in sorted(classes)[:6]]
     ctx.cov.update({
@@ -516,15 +520,15 @@ def standard_check(spec, tier, seed, replay=None):
         "model_impl_disagreements": len(mism_all),
     })
     if mism_all:
-        b, profile, c = mism_all[0]
+        b, profile, c, extra = mism_all[0]
         ctx.problems.append("correspondence: model and implementation disagree on %d case(s), first: %s/%s #%d %s" % (
             len(mism_all), b, profile, c[0], c[2][:300]))
     if ctx.problems and not ctx.violations:
         detail = {"property": prop, "broken": ctx.problems,
                   "searched": "%d implementation traces (10x quick batch) evaluated by ok_%s in Coq; none rejected" % (evals, prop)}
         if mism_all:
-            b, profile, c = mism_all[0]
-            detail["first_disagreement"] = {"bin": b, "profile": profile, "seed": ctx.seed, "index": c[0], "case": c[2]}
+            b, profile, c, extra = mism_all[0]
+            detail["first_disagreement"] = {"bin": b, "profile": profile, "args": extra, "seed": ctx.seed, "index": c[0], "case": c[2][:20000]}
         path = write_replay(prop, "broken", detail)
         ctx.violations.append((path, "no-failing-input-found"))
     return finish(ctx)
@@ -532,8 +536,8 @@ def standard_check(spec, tier, seed, replay=None):
 
 def class_hist(gen):
     h = {}
-    for (_, _, cases) in gen:
-        for c in cases:
+    for g in gen:
+        for c in g[2]:
             k = c[1].split(":")[0]
             h[k] = h.get(k, 0) + 1
     return h
@@ -557,12 +561,12 @@ def do_replay(ctx, replay):
         log("replay file names a broken obligation, not an input:")
         log(json.dumps(obj, indent=1)[:3000])
         return 1
-    rc, out = run_bin(obj["profile"], obj["bin"], ["--seed", obj["seed"], "--only", obj["index"]])
+    rc, out = run_bin(obj["profile"], obj["bin"], ["--seed", obj["seed"], "--only", obj["index"]] + list(obj.get("args", [])))
     cases = parse_case_lines(out)
     log("regenerated case from the current implementation:")
     for c in cases:
         log("  ", c[2])
-    mm, bad, err = eval_cases(spec.prop, spec.case_module, cases, tag="replay")
+    mm, bad, err = eval_cases(spec.prop, spec.case_module, cases, tag="replay", prelude=spec.case_prelude)
     if err:
         log(err)
         return 2
